@@ -81,7 +81,7 @@ def record_and_validate(chk, flavour, exe_name, scen, total_runs, opts, seed_off
 
 def confirm(exe, run_events, scen, pid, sig, workdir, module="TraceCircuit", cfg=None):
     """Re-record one run alone from its Reset line and validate again: True if the same property fails again."""
-    reset = [e for e in run_events if e.get("e") == "Reset"]
+    reset = [e for e in run_events if e.get("e") in ("Reset", "AlgoBegin")]
     if not reset:
         return False
     h = hashlib.sha1(json.dumps(reset[0], sort_keys=True).encode()).hexdigest()[:10]
@@ -100,7 +100,7 @@ def confirm(exe, run_events, scen, pid, sig, workdir, module="TraceCircuit", cfg
     return False
 
 
-def attribute(chk, results, pid, exe, scen, flavour, workdir, max_confirm=6, also=()):
+def attribute(chk, results, pid, exe, scen, flavour, workdir, max_confirm=6, also=(), module="TraceCircuit", exe_name="record"):
     """Turn TLC's contract-failure reports for property `pid` into violations / known findings."""
     confirmed = 0
     seen = set()
@@ -112,8 +112,8 @@ def attribute(chk, results, pid, exe, scen, flavour, workdir, max_confirm=6, als
             if key in seen:
                 continue
             seen.add(key)
-            reset = [e for e in events if e.get("e") == "Reset"]
-            replay = {"kind": "trace", "exe": "record", "scen": scen, "flavour": flavour, "reset": reset[0] if reset else None,
+            reset = [e for e in events if e.get("e") in ("Reset", "AlgoBegin")]
+            replay = {"kind": "trace", "exe": exe_name, "module": module, "scen": scen, "flavour": flavour, "reset": reset[0] if reset else None,
                       "line": rep.get("line"), "event": rep.get("ev")}
             text = "%s at event %s of run %s (%s/%s): %s" % (f["p"], rep.get("ev"), rep["run"], scen, flavour,
                                                            json.dumps(f["why"])[:400])
@@ -121,7 +121,7 @@ def attribute(chk, results, pid, exe, scen, flavour, workdir, max_confirm=6, als
                 chk.violation(text, replay, f["sig"])
                 continue
             if confirmed < max_confirm:
-                if not confirm(exe, events, scen, f["p"], f["sig"], workdir):
+                if not confirm(exe, events, scen, f["p"], f["sig"], workdir, module=module):
                     raise vlib.FrameworkError("rejection did not repeat when run %s was re-recorded alone: %s" % (rep["run"], text))
                 confirmed += 1
             chk.violation(text, replay, f["sig"])
@@ -133,7 +133,7 @@ def replay_file(path):
     rp = data["replay"]
     exe = vlib.build_exe(rp["flavour"], rp.get("exe", "record"))
     d = vlib.scratch("replay")
-    ok = confirm(exe, [rp["reset"]], rp["scen"], data["property"], None, d)
+    ok = confirm(exe, [rp["reset"]], rp["scen"], data["property"], None, d, module=rp.get("module", "TraceCircuit"))
     shutil.rmtree(d, ignore_errors=True)
     if ok:
         print("VIOLATION property=%s replay=%s" % (data["property"], path))
@@ -141,3 +141,53 @@ def replay_file(path):
         return 1
     print("replay %s: the violation did not repeat" % path)
     return 0
+
+
+def cases_and_validate(chk, flavour, exe_name, cases_path, name, module="TraceAlgo", shards=None):
+    """TLC-emitted instances (lines {"scen":..,"inst":..}) executed by the real code, results validated by TLC."""
+    exe = vlib.build_exe(flavour, exe_name)
+    d = vlib.scratch("%s-cases-%s" % (chk.pid, flavour))
+    lines = [l for l in open(cases_path) if l.startswith('"{') or l.startswith("{")]
+    if not lines:
+        raise vlib.FrameworkError("no cases emitted for " + name)
+    shards = shards or min(vlib.NCPU, max(1, len(lines) // 200))
+    per = (len(lines) + shards - 1) // shards
+    paths = []
+    k = 0
+    for s in range(shards):
+        part = lines[s * per:(s + 1) * per]
+        if not part:
+            continue
+        cp = os.path.join(d, "cases%02d.txt" % s)
+        with open(cp, "w") as f:
+            for line in part:
+                v = json.loads(json.loads(line)) if line.startswith('"') else json.loads(line)
+                v["run"] = k
+                k += 1
+                f.write(json.dumps(v) + "\n")
+        paths.append(cp)
+
+    def one(cp):
+        out = cp.replace(".txt", ".ndjson")
+        rc, so, se = vlib.run_exe(exe, ["out=" + out, "cases=" + cp], timeout=3000)
+        if rc != 0:
+            raise vlib.FrameworkError("recorder failed on cases: %s" % (se or "")[-500:])
+        return out
+    with concurrent.futures.ThreadPoolExecutor(len(paths)) as ex:
+        outs = list(ex.map(one, paths))
+    with concurrent.futures.ThreadPoolExecutor(len(paths)) as ex:
+        vals = list(ex.map(lambda p: _validate(p, module, None), outs))
+    results = []
+    allruns = {}
+    states = 0
+    for p, (res, reports) in zip(outs, vals):
+        states += res["distinct"]
+        runs = load_runs(p)
+        allruns.update(runs)
+        for rep in reports:
+            results.append((rep, runs.get(rep["run"], []), p))
+    chk.cov["traces_validated_against_impl"] += len(allruns)
+    chk.cov["states"] += states
+    chk.cov["transitions"] += states
+    chk.step("spec instances executed by the code and validated (%s, %s)" % (name, flavour), instances=len(allruns), reports=len(results))
+    return results, d, allruns, exe
